@@ -10,15 +10,21 @@
 (* A surface node is TAINTED when its source was added with safe = FALSE or *)
 (* it is (below) a node marked !unsafe.                                     *)
 (***************************************************************************)
-EXTENDS AyMerge, AyUniverse, Props_Eval, SequencesExt
+EXTENDS AyMerge, AyUniverse, AyFiles, Props_Eval, SequencesExt
 
 C07_DynKinds == {"call", "bind", "import", "eval", "fstr"}
 
 \* all surface nodes of a document with their taint: set of [k, fn, v, t]
+\* (what a !rec node includes at evaluation time is tainted when the NAME node is: the file is read as an unsafe source)
 RECURSIVE C07_SNodes(_, _)
 C07_SNodes(sd, inh) ==
     LET t == inh \/ sd.safe = "F"
     IN {[k |-> sd.k, fn |-> sd.fn, v |-> sd.v, t |-> t]} \cup UNION {C07_SNodes(sd.ch[i][2], t) : i \in 1..Len(sd.ch)}
+       \cup (IF sd.k = "rec"
+            THEN UNION {LET c == sd.ch[i][2] IN
+                        IF c.k = "scalar" /\ c.v[1] = "s" /\ HasFile(c.v[2]) THEN C07_SNodes(FileDoc(c.v[2]), t \/ c.safe = "F") ELSE {}
+                        : i \in 1..Len(sd.ch)}
+            ELSE {})
 C07_AllSNodes(docs, safes) == UNION {C07_SNodes(docs[j], ~safes[j]) : j \in 1..Len(docs)}
 
 \* the name a dynamic surface node would run / import (function nodes: fn; !import: its text)
@@ -68,10 +74,14 @@ C07_NamesKnown(t, docs, safes) ==
            C07_NodeName(At(t, p)) \in C07_TaintedNames(docs, safes) \cup C07_CleanNames(docs, safes)
     /\ \A p \in PathsOf(t) : IsFn(At(t, p)) => At(t, p).ref = <<>>          \* (no NoImport marker)
 \* (another error - a dangling reference evaluated earlier - may legitimately come first)
+\* (... or a !rec node that names a file which does not exist)
+C07_RecFilesExist(t) ==
+    \A p \in PathsOf(t) : At(t, p).k = "rec" =>
+        \A i \in 1..Len(At(t, p).ch) : LET c == At(t, p).ch[i][2] IN c.k = "scalar" /\ c.v[1] = "s" /\ HasFile(c.v[2])
 C07_FailsUnsafe(t, status, docs, safes) ==
     (C07_TaintedDyn(t, docs, safes) # {} /\ status \in {"done", "EvalError", "UnsafeError"}) =>
         /\ status # "done"
-        /\ (~BadRefs(t) /\ C07_NamesKnown(t, docs, safes)) => status = "UnsafeError"
+        /\ (~BadRefs(t) /\ C07_NamesKnown(t, docs, safes) /\ C07_RecFilesExist(t)) => status = "UnsafeError"
 
 \* a name resolved by evaluated code (an !eval node whose code is one bare name, see AyEval) never yields unsafe content
 RECURSIVE C07_AtomsAt(_, _)
@@ -102,6 +112,7 @@ C07_Bind(fn, args) == [SD("bind", NoVal, args) EXCEPT !.fn = fn, !.form = "tag"]
 C07_Import(name) == [SD("import", Atom("s", name), <<>>) EXCEPT !.form = "tag"]
 C07_XRef(p) == [SD("xref", NoVal, <<>>) EXCEPT !.form = "tag", !.ref = p]
 C07_Req == [SD("required", NoVal, <<>>) EXCEPT !.form = "tag"]
+C07_Rec(names) == [SD("rec", NoVal, [i \in 1..Len(names) |-> <<IKey(i - 1), names[i]>>]) EXCEPT !.form = "tag"]     \* !rec [names]
 C07_EvalN(key) == [SD("eval", Atom("s", key), <<>>) EXCEPT !.form = "tag", !.ref = <<SKey(key)>>]     \* !eval <key>
 C07_Unsafe(sd) == IF sd.form = "none" THEN WithTag(sd, "unsafe") ELSE [sd EXCEPT !.safe = "F", !.form = "md"]
 
@@ -140,7 +151,19 @@ C07_Stage1B == UNION { {SD("dict", NoVal, <<<<C07_KD, d>>, <<C07_KF, f>>>>),
                         SD("dict", NoVal, <<<<C07_KD, d>>, <<SKey("g"), SD("dict", NoVal, <<<<SKey("h"), C07_XRef(<<C07_KD>>)>>>>)>>,
                                             <<C07_KF, C07_Call("vmod.r1a", <<<<C07_KA, C07_XRef(<<SKey("g")>>)>>>>)>>>>)}
                      : f \in C07_FRef, d \in C07_D1 }
-C07_Stage1 == C07_Stage1B \cup C07_Stage1C \cup UNION { {SD("dict", NoVal, <<<<C07_KF, f>>, <<C07_KD, d>>>>),
+\* files included at EVALUATION time: r: !rec [..] (the files are those of harness/registry.py C07 "rec_files": rfcall.yaml holds a
+\* call, rfdata.yaml a string, rfuns.yaml a string marked !unsafe), the name / the document safe or unsafe, consumed by f or not
+C07_KR == SKey("r")
+C07_RecNodes == {C07_Rec(<<C07_S("rfcall.yaml")>>), C07_Rec(<<C07_Unsafe(C07_S("rfcall.yaml"))>>),
+                 C07_Rec(<<C07_S("rfdata.yaml")>>), C07_Rec(<<C07_Unsafe(C07_S("rfdata.yaml"))>>),
+                 C07_Rec(<<C07_S("rfuns.yaml")>>), C07_Rec(<<C07_S("rfdata.yaml"), C07_S("rfcall.yaml")>>),
+                 C07_Rec(<<C07_S("nofile.yaml")>>)}
+C07_RecUse == {C07_S("vmod.r1v"), C07_Call("vmod.r1a", <<<<C07_KA, C07_XRef(<<C07_KR>>)>>>>), C07_XRef(<<C07_KR>>),
+               C07_Call("vmod.r1a", <<<<C07_KA, C07_XRef(<<C07_KR, SKey("x")>>)>>>>)}
+C07_Stage1R == UNION { {SD("dict", NoVal, <<<<C07_KR, r>>, <<C07_KF, f>>>>), SD("dict", NoVal, <<<<C07_KF, f>>, <<C07_KR, r>>>>),
+                        C07_Unsafe(SD("dict", NoVal, <<<<C07_KR, r>>, <<C07_KF, f>>>>))}
+                      : r \in C07_RecNodes, f \in C07_RecUse }
+C07_Stage1 == C07_Stage1B \cup C07_Stage1C \cup C07_Stage1R \cup UNION { {SD("dict", NoVal, <<<<C07_KF, f>>, <<C07_KD, d>>>>),
                        SD("dict", NoVal, <<<<C07_KF, IF f.k = "import" THEN f ELSE C07_Unsafe(f)>>, <<C07_KD, d>>>>),
                        C07_Unsafe(SD("dict", NoVal, <<<<C07_KF, f>>, <<C07_KD, d>>>>))}
                     : f \in C07_F1, d \in C07_D1 }
